@@ -5,6 +5,7 @@ import BigtoolsModel.Tiler3
 import BigtoolsModel.BedZoomCompose
 import BigtoolsModel.WigSections
 import BigtoolsModel.Stats2
+import BigtoolsModel.ZoomLevels
 import BigtoolsModel.BedSummary
 import BigtoolsModel.BBIWrite
 import BigtoolsModel.FileOf
@@ -45,7 +46,17 @@ def chromsLine (c : Case) (names : List String) : String :=
   let sizes := chromSizes c
   "CHROMS" ++ String.join (names.zipIdx.map fun (n, i) => s!" {n}:{i}:{((sizes.find? (·.1 == n)).map (·.2)).getD 0}")
 
-def levels (c : Case) : List Nat := ((c.records "LEVELS").head?.map fun l => (l.drop 1).map nat).getD []
+/-- the zoom resolutions the file lists: for a manual list the model predicts them (`ZL.normalize`, none when
+    nothing covers a base — a level without records is not written); for automatic selection (which depends on
+    compressed sizes) they are taken from the file (`LEVELS`) -/
+def levels (c : Case) : List Nat :=
+  let z := c.opt "zooms" "auto"
+  if z == "auto" then ((c.records "LEVELS").head?.map fun l => (l.drop 1).map nat).getD []
+  else if z == "none" then []
+  else
+    let covers := (c.records "V").any (fun l => nat (l.getD 2 "") < nat (l.getD 3 "")) ||
+                  (c.records "E").any (fun l => nat (l.getD 2 "") < nat (l.getD 3 ""))
+    if covers then ZL.normalize ((z.splitOn ",").map nat) else []
 
 /-- `#k` = the k-th stored level, otherwise the reduction level itself -/
 def levelOf (c : Case) (tok : String) : Nat :=
